@@ -843,6 +843,7 @@ func runC03Round3(c *Ctx) {
 		c.Undecided("Send methods in exporterhelper/internal", "-", "none found")
 	}
 	shareRule(c, "C04", runC04, []string{"C04.R6"}, "R11", "TS", "data sitting in a partially filled batch is never dropped (same rule as C04.R6, the pending-slot typestate of the batcher): it is flushed by size, by the timer or by the final flush of Shutdown", 12)
+	runC03Round4(c)
 }
 
 // ---------- C19.R10 / R11 ----------
